@@ -362,13 +362,24 @@ def run(tier, seed, work):
                 df = C08.divform(leaf, var, K_, (lo_, hi_))
                 if df is None:
                     return None
-                ok_, wit = C08.same_on(df, cf_[rn], lo_, hi_, K_)
+                ok_, wit = C08.same_on(df, cf_[rn], lo_, hi_, K_, Q, True)
                 return ("proved", "") if ok_ else ("refuted", "the assignment computes %s; %s rounding of a/%d demands %s; they differ around a = %s" % (gate.show(leaf)[:80], mode_, K_, cf_[rn], wit))
         v, d = C06.decide_sets(gk, gr, var, ln.domain, zsets, exp, True, ln.R.bits, ln.exact, okj)
         lc[v] += 1
         ln.verdict, ln.gk = v, gate.show(gk)
         if v == "refuted":
-            r.violation(ln.key, "%s: `%s`: %s" % (ln.key, ln.cnl, "; ".join(t for c, t in d if c != "undecided")[:400]), {"key": ln.key, "cnl": ln.cnl, "details": d, "gated": ln.gk})
+            fk = ln.key
+            if "mode" in ln.meta and ln.meta["mode"] in ("nearest", "tie"):
+                # deviation class: every failing source value lies within the rounding bias 2^(k-1) of the limits of the
+                # source rep, and the deviation is the wrong polarity (bound or signal): the bias addition wrapped
+                half = 1 << (ln.meta["k"] - 1)
+                lim = 1 << (ln.F.bits - 1)
+                bad = [t for c, t in d if c != "undecided"]
+                nums = [int(x) for t in bad for x in re.findall(r"-?\d+", t.split("free operand in", 1)[1].split(":", 1)[0])] if all("free operand in" in t for t in bad) else []
+                codes = set(c for c, t in d if c != "undecided")
+                if nums and all(abs(n) >= lim - half - 1 for n in nums) and codes <= {"high:wrong-signal", "low:wrong-signal", "high:wrong-bound", "low:wrong-bound"}:
+                    fk = "narrow/%s/bias-wraps-near-source-limit" % ln.meta["mode"]
+            r.violation(ln.key, "%s: `%s`: %s" % (ln.key, ln.cnl, "; ".join(t for c, t in d if c != "undecided")[:400]), {"key": ln.key, "cnl": ln.cnl, "details": d, "gated": ln.gk, "finding_key": fk}, finding_key=fk)
         elif v == "undecided":
             r.notes.append("undecided %s: %s" % (ln.key, [t for c, t in d][:1]))
     common.floor_check(r, "type facts judged", nf["proved"] + nf["refuted"], FLOOR[tier]["facts"])
